@@ -26,7 +26,10 @@ theorem SS.writes_prompt (ds : List Bytes) (x : SS) : (x.writes ds).prompt = x.p
   | nil => rfl
   | cons d ds ih => rw [SS.writes_cons, ih, SS.write_prompt]
 
-theorem SS.set_prompt_self (y : SS) (p : Option Pat) (h : y.prompt = p) : { y with prompt := p } = y := by
+/-- the same stream state under another prompt -/
+def SS.withPrompt (q : Option Pat) (x : SS) : SS := { x with prompt := q }
+
+theorem SS.withPrompt_self (y : SS) (p : Option Pat) (h : y.prompt = p) : y.withPrompt p = y := by
   cases y; simp only at h; subst h; rfl
 
 /-- what an operation other than prompt configuration and attach/detach does: the frames stay,
@@ -36,7 +39,7 @@ structure Eff (r : RunSt) (op : Op) : Prop where
   prompts : (obsOp op r).2.prompts = r.prompts
   ss : ∃ q : Option Pat, (changesPrompt op = false → q = r.st.prompt) ∧
         ssOf (obsOp op r).2.st
-          = { ({ ssOf (cut r.st) with prompt := q } : SS).writes (delivered (obsOp op r).1) with prompt := r.st.prompt }
+          = (((ssOf (cut r.st)).withPrompt q).writes (delivered (obsOp op r).1)).withPrompt r.st.prompt
 
 theorem eff_of_tr (r : RunSt) (op : Op) (s' : St) (recs : List ReadRec)
     (hst : (runOp op { r with st := cut r.st }).2.st = s')
@@ -47,9 +50,9 @@ theorem eff_of_tr (r : RunSt) (op : Op) (s' : St) (recs : List ReadRec)
   rw [obsOp_delivered, obsOp_snd, hst]
   have hreads : s'.reads = recs := by rw [htr.reads]; rfl
   rw [hreads, htr.ss]
-  have : ({ ssOf (cut r.st) with prompt := r.st.prompt } : SS) = ssOf (cut r.st) := rfl
+  have : (ssOf (cut r.st)).withPrompt r.st.prompt = ssOf (cut r.st) := rfl
   rw [this]
-  exact (SS.set_prompt_self _ _ (by rw [SS.writes_prompt]; rfl)).symm
+  exact (SS.withPrompt_self _ _ (by rw [SS.writes_prompt]; rfl)).symm
 
 theorem eff_of_tr' (r : RunSt) (op : Op) (s' : St) (recs : List ReadRec)
     (hsnd : (runOp op { r with st := cut r.st }).2 = { r with st := s' })
